@@ -139,3 +139,92 @@ fn cache_at_quiescence_matches_model() {
         let _ = c.close();
     }
 }
+
+
+/// every key maps to index (k % 4) with conflict hash k + 1: distinct keys collide on the index
+#[derive(Default)]
+struct Colliding;
+impl crate::KeyBuilder for Colliding {
+    type Key = u64;
+    fn hash_index<Q>(&self, key: &Q) -> u64 where u64: core::borrow::Borrow<Q>, Q: core::hash::Hash + Eq + ?Sized {
+        let mut h = crate::TransparentHasher::default();
+        key.hash(&mut h);
+        std::hash::Hasher::finish(&h) % 4
+    }
+    fn hash_conflict<Q>(&self, key: &Q) -> u64 where u64: core::borrow::Borrow<Q>, Q: core::hash::Hash + Eq + ?Sized {
+        let mut h = crate::TransparentHasher::default();
+        key.hash(&mut h);
+        std::hash::Hasher::finish(&h) + 1
+    }
+}
+
+#[test]
+fn colliding_keys_stay_isolated() {
+    if !only("colliding_keys_stay_isolated") { return; }
+    let mut rng = Rng::new(32);
+    for _ in 0..iters(40) {
+        let c: Cache<u64, u64, Colliding> = Cache::builder(200, 1000).set_key_builder(Colliding).set_ignore_internal_cost(true).finalize().unwrap();
+        let mut script = vec!["Cache(key -> (key % 4, key + 1))".to_string()];
+        // model: per index, the key that owns the slot and its value
+        let mut owner: std::collections::HashMap<u64, (u64, u64)> = Default::default();
+        let mut v = 100;
+        for _ in 0..(6 + rng.below(20)) {
+            let k = rng.below(12);
+            let idx = k % 4;
+            match rng.below(4) {
+                0 => { c.remove(&k); script.push(format!("remove({})", k)); if owner.get(&idx).map_or(false, |o| o.0 == k) { owner.remove(&idx); } }
+                1 => { let r = c.get(&k).map(|x| *x.value()); script.push(format!("get({}) -> {:?}", k, r));
+                       let want = owner.get(&idx).filter(|o| o.0 == k).map(|o| o.1);
+                       if r != want { fail("colliding_keys_stay_isolated", "C18:store.get.conflict", &["C18", "C02"], "ShardedMap::get", script.join("; "), format!("{:?}", r), format!("{:?}", want)); let _ = c.close(); return; } }
+                _ => { v += 1; let r = c.insert(k, v, 1); script.push(format!("insert({}, {}) -> {}", k, v, r));
+                       // a colliding resident key keeps the slot; only the owner (or an empty slot) is written
+                       if r && owner.get(&idx).map_or(true, |o| o.0 == k) { owner.insert(idx, (k, v)); } }
+            }
+            c.wait().unwrap();
+            for (idx, (ok, ov)) in &owner {
+                let got = c.get(ok).map(|x| *x.value());
+                if got != Some(*ov) {
+                    fail("colliding_keys_stay_isolated", "C02,C06,C18:cache.remove.delete-always-queued", &["C18", "C02", "C06"], "Cache::try_remove", script.join("; "),
+                        format!("key {} (index {}) -> {:?}", ok, idx, got), format!("Some({}): operations on a colliding key must not touch it", ov));
+                    let _ = c.close(); return;
+                }
+            }
+        }
+        let _ = c.close();
+    }
+}
+
+#[test]
+fn builder_setters_touch_only_their_field() {
+    if !only("builder_setters_touch_only_their_field") { return; }
+    let mut rng = Rng::new(33);
+    for _ in 0..iters(300) {
+        let (mut nc, mut mc, mut bi, mut bs, mut me, mut ig) = (1 + rng.below(100) as usize, 1 + rng.below(100) as i64, 64usize, 32 * 1024usize, false, false);
+        let mut b = CacheBuilder::<u64, u64>::new(nc, mc);
+        let mut script = vec![format!("CacheBuilder::new({}, {})", nc, mc)];
+        for _ in 0..(1 + rng.below(8)) {
+            match rng.below(9) {
+                0 => { nc = rng.below(50) as usize; b = b.set_num_counters(nc); script.push(format!("set_num_counters({})", nc)); }
+                1 => { mc = rng.below(50) as i64; b = b.set_max_cost(mc); script.push(format!("set_max_cost({})", mc)); }
+                2 => { bi = rng.below(50) as usize; b = b.set_buffer_items(bi); script.push(format!("set_buffer_items({})", bi)); }
+                3 => { bs = rng.below(50) as usize; b = b.set_buffer_size(bs); script.push(format!("set_buffer_size({})", bs)); }
+                4 => { me = !me; b = b.set_metrics(me); script.push(format!("set_metrics({})", me)); }
+                5 => { ig = !ig; b = b.set_ignore_internal_cost(ig); script.push(format!("set_ignore_internal_cost({})", ig)); }
+                6 => { b = b.set_update_validator(crate::DefaultUpdateValidator::default()); script.push("set_update_validator(..)".into()); }
+                7 => { b = b.set_coster(crate::DefaultCoster::default()); script.push("set_coster(..)".into()); }
+                _ => { b = b.set_callback(crate::DefaultCacheCallback::default()); script.push("set_callback(..)".into()); }
+            }
+            let i = &b.inner;
+            if (i.num_counters, i.max_cost, i.buffer_items, i.insert_buffer_size, i.metrics, i.ignore_internal_cost) != (nc, mc, bi, bs, me, ig) {
+                fail("builder_setters_touch_only_their_field", "C20:builder.set_update_validator", &["C20", "C09"], "CacheBuilderCore setters", script.join("; "),
+                    format!("{:?}", (i.num_counters, i.max_cost, i.buffer_items, i.insert_buffer_size, i.metrics, i.ignore_internal_cost)), format!("{:?}", (nc, mc, bi, bs, me, ig)));
+                return;
+            }
+        }
+        let want_err = nc == 0 || mc == 0 || bs == 0;
+        match b.finalize() {
+            Ok(c) => { let _ = c.close(); if want_err { fail("builder_setters_touch_only_their_field", "C20:finalize.rejects-zero-buffer-size", &["C20"], "CacheBuilder::finalize", script.join("; "), "Ok".into(), "Err".into()); return; } }
+            Err(_) => { if !want_err { fail("builder_setters_touch_only_their_field", "C20:finalize.rejects-zero-buffer-size", &["C20"], "CacheBuilder::finalize", script.join("; "), "Err".into(), "Ok".into()); return; } }
+        }
+    }
+}
